@@ -4,6 +4,7 @@ import (
 	"bytes"
 	"crypto/sha256"
 	"fmt"
+	"github.com/skycoin/skycoin/src/api"
 	"math/big"
 	"strings"
 	"sync/atomic"
@@ -246,7 +247,7 @@ func c15(r *engine.Run) {
 	}
 	r.Assumptions = append(r.Assumptions,
 		"byte strings: all of length <= 2, a boundary byte alphabet at length 3 (thorough 4), and long runs; text: all strings of <= 3 (thorough 4) letters over the 58 characters plus confusable and non-ASCII letters, long runs of '1'; addresses: every single-character edit of the fixture addresses. Nothing is said about other inputs",
-		"SHA256 and RIPEMD160 are trusted; the HTTP endpoint /api/v2/address/verify is not exercised here (it calls cipher.DecodeBase58Address)",
+		"SHA256 and RIPEMD160 are trusted; the HTTP endpoint /api/v2/address/verify is exercised through its real handler (export VerifAddressVerify) on every text of the address families",
 		"the empty byte string / empty text is judged once: Encode([]) must be \"\" and the round trip needs Decode(\"\") to succeed")
 	alphabet["families"] = c.fam.Map()
 	r.Finish(engine.Coverage{
@@ -324,6 +325,11 @@ func c15Addresses(c *c15ctx, alphabet map[string]interface{}) {
 		addv(" " + s)
 		addv(s + " ")
 		addv(s + "\n")
+		for _, ws := range []string{"\t", "\r\n", "\x00", "\u00a0", "\u2003", "  "} {
+			addv(ws + s)
+			addv(s + ws)
+			addv(ws + s + ws)
+		}
 		addv(strings.ToUpper(s))
 		addv(strings.ToLower(s))
 		// byte-level edits, re-encoded by the model: version, checksum, length
@@ -373,6 +379,24 @@ func c15Addresses(c *c15ctx, alphabet map[string]interface{}) {
 				cls = "addr:reject:version"
 			}
 			c.out.Add(cls)
+			// the same text through the API endpoint: 200 exactly for the canonical address texts (with the right version)
+			if v != "" {
+				var st int
+				var ver uint8
+				var hb string
+				if pn, pm := engine.Catch(func() { st, ver, hb = api.VerifAddressVerify(v) }); pn {
+					r.Failf("api.addressVerify:panic", v, "POST /api/v2/address/verify {address: %q} panics: %s", v, pm)
+				} else if (st == 200) != (merr == nil) || (st != 200 && st != 422) {
+					sig := "api.addressVerify:accepts-non-address:" + cls[len("addr:"):]
+					if merr == nil {
+						sig = "api.addressVerify:rejects-canonical-address"
+					}
+					r.Failf(sig, v, "POST /api/v2/address/verify {address: %q} → %d %s; definition: %v (fixture %s = %s)", v, st, strings.TrimSpace(hb), merr, f.name, s)
+				} else if st == 200 && ver != ma.Version {
+					r.Failf("api.addressVerify:wrong-version", v, "POST /api/v2/address/verify {address: %q} → version %d, definition %d", v, ver, ma.Version)
+				}
+				c.ev("address-api", 1)
+			}
 			if (err == nil) != (merr == nil) {
 				sig := "cipher.DecodeBase58Address:accepts-non-address:" + cls[len("addr:"):]
 				if merr == nil {
